@@ -275,6 +275,8 @@ PATS = {
     # a, optionally b, c, d: a run that skipped b is at block 3 with two events; a, b*, c with no iteration likewise
     "opt4": [(1, [_pat(1, ["R", "RO", "R", "R"])])],
     "loop4": [(1, [_pat(1, ["R", "RL", "RO", "R"])])],
+    # two phenomena whose patterns have the same NAME and different blocks (names are unique within a phenomenon only)
+    "samename": [(1, [_pat(1, ["R", "R", "R"])]), (2, [_pat(1, ["R", "R"], 4)])],
     # a pattern with many runs next to a singleton pattern (its runs are started on one instance only in the scenarios)
     "mix": [(1, [_pat(1, ["R", "R", "R"])]), (2, [_pat(2, ["R", "R", "R"], 4, True)])],
 }
